@@ -66,9 +66,11 @@ Section Expand.
         let sp := uspan x in
         SCmp sp op e x
              (mk_push sp id (ADebug e) (match op with OpEq => EText (u_text x) | _ => ENone end))
-    | PRange id x _ =>
+    | PRange id x parts =>
         let sp := uspan x in
-        SRange sp e (u_toks x) (mk_push sp id (ADebug e) ENone)
+        SRange sp e (u_toks x)
+               (match parts with Some (lo, _, incl, hi) => Some (lo, incl, hi) | None => None end)
+               (mk_push sp id (ADebug e) ENone)
     | PRegex id pattern sp =>
         SRegex sp e pattern (mk_push sp id (ADebug e) ENone)
     | PLike id x =>
